@@ -36,7 +36,7 @@ ASSUMPTIONS = [
     "float32 is not asked for tolerances below 100*eps (the (1e-10,1e-8) setting is float64 only)",
     "global error bound: 10*(atol+rtol*max|y|)*steps*exp(mu*|t-t0|) + 100*eps*evaluations*max|y|*exp(mu*|t-t0|), mu = "
     "one-sided Lipschitz constant (logarithmic 2-norm, clipped at 0) of the family in the direction of integration",
-    "time grids are strictly monotone; ts and y0 share one dtype",
+    "time grids are strictly monotone; ts and y0 share one dtype except in the mixdt plane (float32 grid, float64 state)",
 ]
 BUDGET_S = {"quick": 300, "thorough": 3000}
 
@@ -375,6 +375,14 @@ def cases(tier, seed):
                             if d == "float64" and f in REL_FAMILIES and g in REL_GRIDS:
                                 out.append(_pl({"kind": "lattice", "method": m, "family": f, "grid": g, "tol": "rel",
                                                 "dtype": d, "plane": pl}, seed))
+    # (d) time grid and state of different dtypes (float32 grid as produced by torch.linspace without a dtype,
+    # float64 state): the result has the dtype of the state, starts at y0 bit for bit and agrees with the run on
+    # the same times given in float64
+    for m in METHODS:
+        for f in FAMILIES:
+            for g in (("u5", "ragged", "u5-dec") if tier == "quick" else LATTICE_GRIDS):
+                out.append({"kind": "mixdt", "method": m, "family": f, "grid": g, "dtype": "float64",
+                            "tsdtype": "float32", "plane": 0})
     from mc.props import _hist_common as H
     H.spread(out, H.hist_cases(len(HIST_LABELS), 2 if tier == "quick" else 3))
     return out
@@ -1005,9 +1013,53 @@ def run_lattice(cfg):
 
 # ====================================================================== dispatch
 
+def run_mixdt(cfg):
+    m = cfg["method"]
+    dt, tdt = dt_of(cfg["dtype"]), dt_of(cfg["tsdtype"])
+    fam = make_family(cfg["family"], 0, 0)
+    ts = torch.tensor(grid_points(cfg["grid"]), dtype=tdt)
+    n = ts.numel()
+    y0 = fam.y0(dt)
+
+    def rows(yt):
+        if fam.tuple_state:
+            return torch.cat([v.reshape(v.shape[0], -1) for v in yt], dim=1)
+        return yt.reshape(yt.shape[0], -1)
+    o = _solve(Spy(rhs=fam.rhs).f, ts, y0, m)
+    if o.exc is not None:
+        return {"viol": [_exc_v(o)], "status": "exception", "obs": {"exc": o.exc_sig}}
+    o2 = _solve(Spy(rhs=fam.rhs).f, ts.to(dt), y0, m)
+    if o2.exc is not None:
+        raise AssertionError("harness: the reference run (grid in the dtype of the state) raised: %s" % o2.exc_sig)
+    viol = []
+    parts = list(o.value) if fam.tuple_state else [o.value]
+    want = list(y0) if fam.tuple_state else [y0]
+    for v, w in zip(parts, want):
+        if not isinstance(v, torch.Tensor) or tuple(v.shape) != (n,) + tuple(w.shape):
+            return {"viol": [V("result-shape", {"got": list(getattr(v, "shape", [])), "expected": [n] + list(w.shape)})],
+                    "obs": {}, "status": "violation"}
+        if v.dtype != w.dtype:
+            viol.append(V("result-dtype", {"got": str(v.dtype), "state": str(w.dtype), "ts": str(ts.dtype)}))
+    if viol:
+        return {"viol": viol[:1], "obs": {"dtype": str(parts[0].dtype)}, "status": "violation", "n": 2}
+    Y, R = rows(o.value), rows(o2.value)
+    if not torch.equal(Y[0], fam.flat(y0)):
+        viol.append(V("y[0]-differs-from-y0", {"y[0]": rnd(Y[0]), "y0": rnd(fam.flat(y0))}))
+    # the two runs differ by the rounding of the time arithmetic (float32: 6e-8 relative per operation) and, for
+    # the adaptive methods, by step sequences that both respect the default tolerances (rtol 1e-5)
+    scale = max(1.0, float(R.abs().max()))
+    d = float((Y - R).abs().max())
+    tol = (1e-5 if m in FIXED else 1e-4) * scale
+    if not d <= tol:
+        viol.append(V("mixed-dtype-result-differs", {"max_abs_difference": d, "tol": tol}))
+    return {"viol": viol, "obs": {"d": rnd(d, 2)}, "status": "violation" if viol else "ok", "n": 2}
+
+
 def run_case(cfg):
     torch.manual_seed(0)
     k = cfg["kind"]
+    if k == "mixdt":
+        return run_mixdt(cfg)
     if k == "history":
         from mc.props import _hist_common as H
         return H.run_history("C07", HIST_PRELUDE, ["%s/%s" % c for c in HIST_LABELS], cfg["seq"], HIST_TOL,
